@@ -916,16 +916,16 @@ pub fn run_pass(ctx: &Ctx, sc: &Scenario, inject: bool) -> PassResult {
                 }
             }
         }
-        if step.kind == "A" {
-            if let Some(name) = &step.save_params {
-                if let Some(pb) = after.get(name) {
-                    written.insert(name.clone(), (fnv1a(pb), k, sink_file, out_bytes.clone()));
-                }
+        // (a reload that is also given -p may or may not write that file; if it is there afterwards, it
+        // is a parameter file written by an exit-0 run like any other)
+        if let Some(name) = &step.save_params {
+            if let Some(pb) = after.get(name) {
+                written.insert(name.clone(), (fnv1a(pb), k, sink_file, out_bytes.clone()));
             }
         }
         // a verification reload of our own when the scenario does not reload this file next
         // (fault-free pass only): other hash seed, two days later, another zone
-        if !inject && step.kind == "A" && step.save_params.is_some() {
+        if !inject && step.save_params.as_ref().map(|n| after.contains_key(n)).unwrap_or(false) {
             let pname = step.save_params.clone().unwrap();
             let next_reloads = sc.steps.get(k + 1).map(|n| n.kind == "B" && n.input.as_deref() == Some(pname.as_str())).unwrap_or(false);
             if !next_reloads {
